@@ -41,6 +41,7 @@
 
 #include <iora/storage/kvstore.hpp>
 
+#include <csignal>
 #include <dirent.h>
 #include <map>
 #include <set>
@@ -97,6 +98,24 @@ std::string show(const std::string &s)
 }
 Bytes toBytes(const std::string &s) { return Bytes(s.begin(), s.end()); }
 std::string toStr(const Bytes &b) { return std::string(b.begin(), b.end()); }
+std::string show(const Bytes &b)
+{
+  if (b.size() > (1u << 20))
+  {
+    // same rendering as show(std::string) without copying a huge value
+    uint64_t h = 1469598103934665603ull;
+    for (size_t i = 0; i < b.size(); i += 4099)
+    {
+      h ^= b[i];
+      h *= 1099511628211ull;
+    }
+    h ^= b[b.size() - 1];
+    char buf[64];
+    snprintf(buf, sizeof buf, "<%zu bytes #%08x>", b.size(), unsigned(h));
+    return buf;
+  }
+  return show(toStr(b));
+}
 bool same(const Bytes &b, const std::string &s) { return b.size() == s.size() && (s.empty() || memcmp(b.data(), s.data(), s.size()) == 0); }
 int64_t wallNow() { return int64_t(mc_wall_ns()); }
 std::chrono::system_clock::time_point tp(int64_t ns) { return std::chrono::system_clock::time_point(std::chrono::nanoseconds(ns)); }
@@ -316,10 +335,10 @@ void readPass(World &w, bool reverse, const char *when)
       if (g.has_value() != L)
       {
         auto pk = presenceKind(k, L);
-        note(v, A_GET, pk.first, pk.second, L ? "expected " + show(e->val) + ", got absent" : "expected absent, got " + show(toStr(*g)));
+        note(v, A_GET, pk.first, pk.second, L ? "expected " + show(e->val) + ", got absent" : "expected absent, got " + show(*g));
       }
       else if (L && !same(*g, e->val))
-        note(v, A_GET, "value-mismatch", 4, "expected " + show(e->val) + ", got " + show(toStr(*g)));
+        note(v, A_GET, "value-mismatch", 4, "expected " + show(e->val) + ", got " + show(*g));
       auto gs = kv.getString(k);
       if (gs.has_value() != L)
       {
@@ -341,7 +360,7 @@ void readPass(World &w, bool reverse, const char *when)
         note(v, A_TTL, "ttl-mismatch", 3,
              "expected " + (expT ? std::to_string(expSecs) + "s" : std::string("none")) + ", got " + (t ? std::to_string(t->count()) + "s" : std::string("none")));
       if (k.size() <= 4)
-        sum << k << "=" << (g ? show(toStr(*g)) : std::string("-")) << (t ? "/ttl" + std::to_string(t->count()) : std::string()) << " ";
+        sum << k << "=" << (g ? show(*g) : std::string("-")) << (t ? "/ttl" + std::to_string(t->count()) : std::string()) << " ";
     }
     // --- keys()
     {
@@ -402,10 +421,10 @@ void readPass(World &w, bool reverse, const char *when)
         if ((it != b.end()) != L)
         {
           auto pk = presenceKind(k, L);
-          note(verdicts[k], A_BATCH, pk.first, pk.second, L ? "missing from the result" : "returned " + show(toStr(it->second)));
+          note(verdicts[k], A_BATCH, pk.first, pk.second, L ? "missing from the result" : "returned " + show(it->second));
         }
         else if (L && !same(it->second, w.ref[k].val))
-          note(verdicts[k], A_BATCH, "value-mismatch", 4, "expected " + show(w.ref[k].val) + ", got " + show(toStr(it->second)));
+          note(verdicts[k], A_BATCH, "value-mismatch", 4, "expected " + show(w.ref[k].val) + ", got " + show(it->second));
       }
     }
     // --- size()
@@ -505,8 +524,12 @@ uint64_t digest(World &w)
 
 void compareAll(World &w, const char *when)
 {
+  bool huge = false;
+  for (auto &e : w.ref)
+    huge = huge || e.second.val.size() > (1u << 20);
   readPass(w, false, when);
-  readPass(w, true, when);
+  if (!huge) // a second pass in reverse key order (cache side effects of get); skipped for 100 MiB values (cost)
+    readPass(w, true, when);
   mc_state_mix(digest(w));
 }
 
@@ -861,7 +884,7 @@ void buildAlphabets()
     for (auto &k : keys)
       for (auto &v : vals)
         ALPHA_FULL.push_back(mk(O_SET_TTL, k, v, ttl));
-  for (int d : {1, 2, 30})
+  for (int d : {1, 2, 30, 17}) // 17 s lands inside the clamped re-arm window [16 s, 20 s) of a 20 s TTL
     ALPHA_FULL.push_back(mk(O_ADV_Q, "", "", d));
   for (int d : {1, 2, 30})
     ALPHA_FULL.push_back(mk(O_ADV_L, "", "", d));
@@ -884,8 +907,8 @@ void buildAlphabets()
   ALPHA_FULL.push_back(mkBatch({{"a", ""}, {"ab", "x"}}, 1));
   ALPHA_FULL.push_back(mkBatch({{"a", B2}}, 20));
 
-  // reduced alphabet (a subset of the full one) for more depth: one value per writer.  The first 13 operations are
-  // the quick tier's alphabet.
+  // reduced alphabet (a subset of the full one) for more depth: one value per writer.  The first 14 operations are
+  // the quick tier's alphabet, the first 15 the depth-5 alphabet.
   ALPHA_DEEP.push_back(mk(O_SET, "a", "x"));
   ALPHA_DEEP.push_back(mk(O_SET_TTL, "a", B2, 1));
   ALPHA_DEEP.push_back(mk(O_SET_TTL, "ab", "", 1));
@@ -899,6 +922,7 @@ void buildAlphabets()
   ALPHA_DEEP.push_back(mk(O_EXPIRE_AT, "a", "", -1));
   ALPHA_DEEP.push_back(mk(O_REOPEN));
   ALPHA_DEEP.push_back(mk(O_COMPACT));
+  ALPHA_DEEP.push_back(mk(O_ADV_Q, "", "", 17));
   ALPHA_DEEP.push_back(mk(O_ADV_Q, "", "", 2));
   ALPHA_DEEP.push_back(mk(O_REMOVE, "a"));
   ALPHA_DEEP.push_back(mkBatch({{"a", ""}, {"ab", "x"}}, 1));
@@ -933,6 +957,26 @@ void buildAlphabets()
   ALPHA_CACHE0.push_back(mkBatch({{"a", ""}, {"ab", "x"}}, 0));
 }
 
+// The cache0 scenario names its own crash: the runtime would file any SIGSEGV under the generic signature
+// "asan:SEGV", too coarse to be matched against a known finding without hiding unrelated crashes.
+std::string g_segvSig, g_segvDetail;
+void segvReporter(int)
+{
+  if (g_world)
+    rmTree(g_world->dir);
+  mc_violation("no-crash-no-ub", g_segvSig, g_segvDetail);
+}
+void armSegvReporter(const World &w, const Op &next)
+{
+  const bool write = next.kind == O_SET || next.kind == O_SET_TTL || next.kind == O_BATCH || next.kind == O_BATCH_TTL;
+  g_segvSig = std::string("maxCacheSize=0:SIGSEGV-in-") + (write ? "write" : opClass(next));
+  g_segvDetail = "SIGSEGV inside " + next.name + " with KVStoreConfig::maxCacheSize = 0 | history so far: " + w.hist;
+  struct sigaction sa;
+  memset(&sa, 0, sizeof sa);
+  sa.sa_handler = segvReporter;
+  sigaction(SIGSEGV, &sa, nullptr);
+}
+
 void history(const std::vector<Op> &alpha, int depth, uint32_t cacheSize, std::vector<std::string> universe, std::vector<std::string> prefixes,
              uint32_t maxLog = 10 * 1024 * 1024)
 {
@@ -947,6 +991,8 @@ void history(const std::vector<Op> &alpha, int depth, uint32_t cacheSize, std::v
   {
     int c = chooseN(int(alpha.size()));
     const Op &o = alpha[size_t(c)];
+    if (cacheSize == 0)
+      armSegvReporter(w, o);
     apply(w, o);
     compareAll(w, ("after step " + std::to_string(s + 1) + " [" + o.name + "]").c_str());
     mc_obs("%s -> %s", o.name.c_str(), summary.c_str());
@@ -967,7 +1013,7 @@ struct RaceScn
   int writer;   // 0 plain set, 1 set with TTL 20 s, 2 remove, 3 none
   int actAtSec; // writer and reader act this many seconds after the TTL key was written (TTL = 1 s; evicted at the 2 s tick)
   int reader;   // 0 get+getString, 1 exists+ttl, 2 keys+keysWithPrefix+size, 3 getBatch+get
-  int qP, qT, tP, tT;
+  int qP, qT, qTot, tP, tT, tTot;
 };
 
 struct Stamp
@@ -1222,12 +1268,12 @@ void race(const RaceScn &sc)
         if (g.has_value() != L || ex != L)
         {
           kind = L ? "live-key-missing" : (w.ghost.count("a") && w.ghost["a"] == G_EXPIRED ? "expired-key-visible" : "removed-key-visible");
-          detail = std::string("get: ") + (g ? show(toStr(*g)) : "absent") + ", exists: " + (ex ? "true" : "false") + ", expected " + (L ? show(w.ref["a"].val) : "absent");
+          detail = std::string("get: ") + (g ? show(*g) : "absent") + ", exists: " + (ex ? "true" : "false") + ", expected " + (L ? show(w.ref["a"].val) : "absent");
         }
         else if (L && !same(*g, w.ref["a"].val))
         {
           kind = "value-mismatch";
-          detail = "get: " + show(toStr(*g)) + ", expected " + show(w.ref["a"].val);
+          detail = "get: " + show(*g) + ", expected " + show(w.ref["a"].val);
         }
         else
         {
@@ -1241,7 +1287,7 @@ void race(const RaceScn &sc)
           else if (!gb || toStr(*gb) != "keep")
           {
             kind = "bystander-lost";
-            detail = "the untouched permanent key 'ab' reads " + (gb ? show(toStr(*gb)) : std::string("absent"));
+            detail = "the untouched permanent key 'ab' reads " + (gb ? show(*gb) : std::string("absent"));
           }
           else if (n != size_t(L ? 2 : 1))
           {
@@ -1249,7 +1295,7 @@ void race(const RaceScn &sc)
             detail = "size() = " + std::to_string(n) + ", expected " + std::to_string(L ? 2 : 1);
           }
         }
-        mc_obs("%s: a=%s ttl=%lld size=%zu", phase, g ? show(toStr(*g)).c_str() : "-", t ? (long long)t->count() : -1ll, n);
+        mc_obs("%s: a=%s ttl=%lld size=%zu", phase, g ? show(*g).c_str() : "-", t ? (long long)t->count() : -1ll, n);
         if (!kind.empty())
         {
           char tb[64];
@@ -1280,15 +1326,15 @@ void race(const RaceScn &sc)
 }
 
 const RaceScn RACES[] = {
-  // name                      writer act reader  qP qT tP tT
-  {"race_reset_plain_get", 0, 2, 0, 1, 1, 2, 1},
-  {"race_reset_ttl_get", 1, 2, 0, 1, 1, 2, 1},
-  {"race_reset_plain_scan", 0, 2, 2, 1, 1, 2, 1},
-  {"race_reset_ttl_exists", 1, 2, 1, 1, 1, 2, 1},
-  {"race_remove_batch", 2, 2, 3, 1, 1, 2, 1},
-  {"race_reset_plain_at_expiry", 0, 1, 0, 1, 1, 2, 1},
-  {"race_reset_ttl_at_expiry", 1, 1, 3, 1, 1, 2, 1},
-  {"race_evict_vs_readers", 3, 2, 0, 1, 1, 2, 1},
+  // name                      writer act reader  qP qT qTot  tP tT tTot
+  {"race_reset_plain_get", 0, 2, 0, 1, 1, 2, 2, 1, 2},
+  {"race_reset_ttl_get", 1, 2, 0, 1, 1, 2, 2, 1, 2},
+  {"race_reset_plain_scan", 0, 2, 2, 1, 1, 1, 2, 1, 2},
+  {"race_reset_ttl_exists", 1, 2, 1, 1, 1, 1, 2, 1, 2},
+  {"race_remove_batch", 2, 2, 3, 1, 1, 1, 2, 1, 2},
+  {"race_reset_plain_at_expiry", 0, 1, 0, 1, 1, 1, 2, 1, 2},
+  {"race_reset_ttl_at_expiry", 1, 1, 3, 1, 1, 1, 2, 1, 2},
+  {"race_evict_vs_readers", 3, 2, 0, 1, 1, 1, 2, 1, 2},
 };
 } // namespace
 
@@ -1339,18 +1385,22 @@ int main(int argc, char **argv)
   const int depthFull = envInt("C12_DEPTH", 4);
   const int depthDeep = envInt("C12_DEPTH_DEEP", 5);
   histScn("hist_d4", [=]() { history(ALPHA_FULL, depthFull, 1, U, PFX); }, 70);
-  histScn("hist_reduced_d5", [=]() { history(ALPHA_DEEP, depthDeep, 1, U, PFX); }, 30);
+  {
+    // depth 5 over the first 15 operations of the reduced alphabet (without remove, setBatch+ttl and clear)
+    std::vector<Op> alpha(ALPHA_DEEP.begin(), ALPHA_DEEP.begin() + 15);
+    histScn("hist_reduced_d5", [=]() { history(alpha, depthDeep, 1, U, PFX); }, 30);
+  }
   (void)thorough;
 #else
   const char *part = "C12_kvstore";
   const int depthFull = envInt("C12_DEPTH", 3);
   const int depthDeep = envInt("C12_DEPTH_DEEP", 4);
   const int depthBoundary = envInt("C12_DEPTH_BOUNDARY", 3);
-  const int depthBig = envInt("C12_DEPTH_BIG", 2);
+  const int depthBig = envInt("C12_DEPTH_BIG", thorough ? 2 : 1); // 100 MiB values: ~5 s of CRC and copying per set / reload
   histScn("hist", [=]() { history(ALPHA_FULL, depthFull, 1, U, PFX); }, 40);
   {
-    // quick: the first 13 operations of the reduced alphabet; thorough: all 17 (depth 4 both)
-    std::vector<Op> alpha(ALPHA_DEEP.begin(), ALPHA_DEEP.begin() + (thorough ? long(ALPHA_DEEP.size()) : 13));
+    // quick: the first 14 operations of the reduced alphabet; thorough: all 18 (depth 4 both)
+    std::vector<Op> alpha(ALPHA_DEEP.begin(), ALPHA_DEEP.begin() + (thorough ? long(ALPHA_DEEP.size()) : 14));
     histScn("hist_reduced", [=]() { history(alpha, depthDeep, 1, U, PFX); }, thorough ? 60 : 20);
   }
   histScn(
@@ -1370,13 +1420,13 @@ int main(int argc, char **argv)
     m.quick.P = s.qP;
     m.quick.T = s.qT;
     m.quick.S = 1;
-    m.quick.total = 2;
+    m.quick.total = s.qTot;
     m.thorough.P = s.tP;
     m.thorough.T = s.tT;
     m.thorough.S = 1;
-    m.thorough.total = 3;
+    m.thorough.total = s.tTot;
     m.horizon_s = 600;
-    m.weight = 3;
+    m.weight = thorough ? 4 : (s.qTot > 1 ? 6 : 1);
     v.push_back(m);
   }
 #endif
